@@ -35,8 +35,10 @@ CLAIMS = {
          "unsubscribe. For ALL schedules, any number of threads and any scripts, over that model: C06_threads_values (nothing invented), "
          "C06_threads_once_in_common_order (each emission at most once per subscriber, all subscribers in one common order), "
          "C06_threads_terminal_is_last, C06_threads_nothing_after_unsubscribe (hypotheses: probe names subscribed once; an unsubscription "
-         "names a probe subscribed by the setup or earlier in the same script - both evaluated on every generated case). 'Exactly those "
-         "subscribers that subscribed before the emission began' under concurrency is judged on the explored schedules, not proved.", "DESIGN.md section 5 C06"),
+         "names a probe subscribed by the setup or earlier in the same script - both evaluated on every generated case), and the "
+         "completeness half: C06_threads_current_subscriber_sees_everything (a subscriber there from the start that never left gets every "
+         "emission that reaches anybody), C06_threads_current_subscriber_at_any_moment (mid-run: all but the one emission in progress), "
+         "C06_threads_no_emission_lost (every next() of every script arrives unless the subject was terminated).", "DESIGN.md section 5 C06"),
  "C12": ("Theorems C12_behavior_refines / C12_value_is_latest / C12_hands_latest: for every sequential history of next / next_by / clone / "
          "subscribe / unsubscribe / peek / complete / error (any length), the subject-plus-value-cell model equals the abstract 'multicast "
          "set + most recent value'; the stored value is the last one passed to next/next_by through any handle (or the initial one); a new "
